@@ -210,6 +210,8 @@ pub fn run_shard(ctx: &mut Ctx) {
     let quick_n = 400u64;
     let mut h = 0u64;
     let mut stats = C04Stats::default();
+    // (the two scenarios after the main loop keep a quarter of the time box)
+    ctx.begin_phase(0.75);
     loop {
         if ctx.tier == Tier::Quick && h >= quick_n {
             break;
@@ -253,11 +255,13 @@ pub fn run_shard(ctx: &mut Ctx) {
             Err(RunErr::Inconclusive(s)) => ctx.out.inconclusive.push(s),
         }
     }
+    ctx.end_phase();
     // the worker's largest possible batch: a full request queue behind a parked worker
     {
         let n = if ctx.tier == Tier::Quick { 2 } else { 30 };
-        let (t0, b) = (ctx.t0, ctx.budget_s);
-        crate::props::maxbatch::run(&mut ctx.out, n, &mut r, &|| util::now_s() - t0 < b + 20.0);
+        let dl = ctx.begin_phase(0.5);
+        crate::props::maxbatch::run(&mut ctx.out, n, &mut r, &|| util::now_s() < dl);
+        ctx.end_phase();
     }
     // shutdown: a flush with a callback issued right before the store is dropped (worker parked) must still be
     // answered exactly once by the time drop() has returned
